@@ -302,6 +302,24 @@ func (d *c17Daemon) step(id string, r *rand.Rand) bool {
 				fl := uint64(r.Intn(4))
 				a.Flags, exp.flags = u64p(fl), fl
 			}
+			if m := d.routes[n.String()]; len(m) > 0 && r.Intn(3) == 0 {
+				// refresh of an existing route with exactly one parameter changed (or none)
+				ks := sortedKeys(m)
+				rt := m[ks[r.Intn(len(ks))]]
+				if !d.destroyed[rt.face] {
+					exp = rt
+					switch r.Intn(4) {
+					case 0:
+						exp.cost = (rt.cost + 1 + uint64(r.Intn(5))) % 20
+					case 1:
+						exp.flags = rt.flags ^ 1
+					case 2:
+						exp.flags = rt.flags ^ 2
+					}
+					a.FaceId, a.Origin, a.Cost, a.Flags = u64p(exp.face), u64p(exp.origin), u64p(exp.cost), u64p(exp.flags)
+					c.Count("route_refreshes_one_parameter_changed", 1)
+				}
+			}
 			d.log = append(d.log, fmt.Sprintf("%s: face %d rib/register %s face=%v origin=%v cost=%v flags=%v", id, requester.id, n, fmtU(a.FaceId), fmtU(a.Origin), fmtU(a.Cost), fmtU(a.Flags)))
 			cp := c17Params(a)
 			resp := d.command(requester, "/localhost/nfd", "rib", "register", &cp, 3*time.Second)
